@@ -20,6 +20,7 @@ THEOREMS = [
     'Tie.impl_refines',
     'Sourcer.C04_lengthening',
     'Sourcer.C04_reindexing',
+    'Sourcer.C04_lengthening_instance',
 ]
 TIE_MODULES = ['Tie.Flags']
 ASSUMPTIONS = [
